@@ -108,6 +108,7 @@ pub struct File {
 }
 impl File {
     pub fn open(p: impl AsRef<Path>) -> io::Result<File> {
+        crate::switch(); // a system call: other simulated threads may run here
         OPENS.with(|o| o.borrow_mut().push(norm(p.as_ref())));
         match get(p.as_ref())? {
             Node::File { data, eio_at, .. } => Ok(File { data, pos: 0, eio_at, is_dir: false }),
@@ -118,6 +119,7 @@ impl File {
 }
 impl io::Read for File {
     fn read(&mut self, buf: &mut [u8]) -> io::Result<usize> {
+        crate::switch();
         if self.is_dir {
             crate::count_fault(Fault::FsEisdir);
             return Err(io::Error::from_raw_os_error(21));
@@ -151,6 +153,7 @@ impl Metadata {
     }
 }
 pub fn metadata(p: impl AsRef<Path>) -> io::Result<Metadata> {
+    crate::switch();
     match get(p.as_ref())? {
         Node::File { meta_err: true, .. } => Err(io::Error::from_raw_os_error(13)),
         Node::File { mtime, .. } => Ok(Metadata { mtime }),
